@@ -1,7 +1,7 @@
 /-
   Aqv.Lemmas.FeedInvD — channel occupancy: a channel never holds more than its capacity plus one value per receiver
   blocked on it (unbuffered hand-off = capacity 0 with a waiting receiver); nothing is ever queued on a channel that was
-  never subscribed.  Used by the progress statements.
+  never subscribed; a Send sits in Select only with at least one active case.  Used by the progress statements.
 -/
 import Aqv.Lemmas.FeedInvA
 namespace Aqv.Feed
@@ -11,6 +11,7 @@ set_option linter.unusedVariables false
 structure InvD (s : St) : Prop where
   occ : ∀ c, (s.buf c).length ≤ s.cap c + s.waiting c
   fresh : ∀ c, s.subscribed c = false → s.buf c = []
+  sel_pos : ∀ g, s.spc g = .sel → 0 < s.active
 
 theorem invD_init : InvD init := by
   constructor <;> simp [init]
@@ -20,31 +21,36 @@ macro "invd_auto" : tactic =>
 
 theorem invD_subscribe (s s' : St) (c k : Nat) (ha : InvA s) (h : InvD s) (hs : step s (.subscribe c k) = some s') : InvD s' := by
   obtain ⟨a1,a2,a3,a4,a5,a6,a7,a8,a9,a10,a11,a12,a13,a14⟩ := ha
-  obtain ⟨h1,h2⟩ := h
+  obtain ⟨h1,h2,h3⟩ := h
+  have mh := merged_held
   step_split hs
   all_goals invd_auto
 
 theorem invD_sendCall (s s' : St) (g : Nat) (ha : InvA s) (h : InvD s) (hs : step s (.sendCall g) = some s') : InvD s' := by
   obtain ⟨a1,a2,a3,a4,a5,a6,a7,a8,a9,a10,a11,a12,a13,a14⟩ := ha
-  obtain ⟨h1,h2⟩ := h
+  obtain ⟨h1,h2,h3⟩ := h
+  have mh := merged_held
   step_split hs
   all_goals invd_auto
 
 theorem invD_acquire (s s' : St) (g : Nat) (ha : InvA s) (h : InvD s) (hs : step s (.acquire g) = some s') : InvD s' := by
   obtain ⟨a1,a2,a3,a4,a5,a6,a7,a8,a9,a10,a11,a12,a13,a14⟩ := ha
-  obtain ⟨h1,h2⟩ := h
+  obtain ⟨h1,h2,h3⟩ := h
+  have mh := merged_held
   step_split hs
   all_goals invd_auto
 
 theorem invD_merge (s s' : St) (g : Nat) (ha : InvA s) (h : InvD s) (hs : step s (.merge g) = some s') : InvD s' := by
   obtain ⟨a1,a2,a3,a4,a5,a6,a7,a8,a9,a10,a11,a12,a13,a14⟩ := ha
-  obtain ⟨h1,h2⟩ := h
+  obtain ⟨h1,h2,h3⟩ := h
+  have mh := merged_held
   step_split hs
   all_goals invd_auto
 
 theorem invD_tryOk (s s' : St) (g : Nat) (ha : InvA s) (h : InvD s) (hs : step s (.tryOk g) = some s') : InvD s' := by
   obtain ⟨a1,a2,a3,a4,a5,a6,a7,a8,a9,a10,a11,a12,a13,a14⟩ := ha
-  obtain ⟨h1,h2⟩ := h
+  obtain ⟨h1,h2,h3⟩ := h
+  have mh := merged_held
   step_split hs
   rename_i i heq hg
   have hle := a14 g (by simp [heq, SPc.merged])
@@ -55,19 +61,22 @@ theorem invD_tryOk (s s' : St) (g : Nat) (ha : InvA s) (h : InvD s) (hs : step s
 
 theorem invD_tryFail (s s' : St) (g : Nat) (ha : InvA s) (h : InvD s) (hs : step s (.tryFail g) = some s') : InvD s' := by
   obtain ⟨a1,a2,a3,a4,a5,a6,a7,a8,a9,a10,a11,a12,a13,a14⟩ := ha
-  obtain ⟨h1,h2⟩ := h
+  obtain ⟨h1,h2,h3⟩ := h
+  have mh := merged_held
   step_split hs
   all_goals invd_auto
 
 theorem invD_sweepEnd (s s' : St) (g : Nat) (ha : InvA s) (h : InvD s) (hs : step s (.sweepEnd g) = some s') : InvD s' := by
   obtain ⟨a1,a2,a3,a4,a5,a6,a7,a8,a9,a10,a11,a12,a13,a14⟩ := ha
-  obtain ⟨h1,h2⟩ := h
+  obtain ⟨h1,h2,h3⟩ := h
+  have mh := merged_held
   step_split hs
   all_goals invd_auto
 
 theorem invD_selPlace (s s' : St) (g i : Nat) (ha : InvA s) (h : InvD s) (hs : step s (.selPlace g i) = some s') : InvD s' := by
   obtain ⟨a1,a2,a3,a4,a5,a6,a7,a8,a9,a10,a11,a12,a13,a14⟩ := ha
-  obtain ⟨h1,h2⟩ := h
+  obtain ⟨h1,h2,h3⟩ := h
+  have mh := merged_held
   step_split hs
   rename_i hg
   have hle := a14 g (by simp [hg.1, SPc.merged])
@@ -78,55 +87,64 @@ theorem invD_selPlace (s s' : St) (g i : Nat) (ha : InvA s) (h : InvD s) (hs : s
 
 theorem invD_selRecv (s s' : St) (g c : Nat) (ha : InvA s) (h : InvD s) (hs : step s (.selRecv g c) = some s') : InvD s' := by
   obtain ⟨a1,a2,a3,a4,a5,a6,a7,a8,a9,a10,a11,a12,a13,a14⟩ := ha
-  obtain ⟨h1,h2⟩ := h
+  obtain ⟨h1,h2,h3⟩ := h
+  have mh := merged_held
   step_split hs
   all_goals invd_auto
 
 theorem invD_doRemove (s s' : St) (g : Nat) (ha : InvA s) (h : InvD s) (hs : step s (.doRemove g) = some s') : InvD s' := by
   obtain ⟨a1,a2,a3,a4,a5,a6,a7,a8,a9,a10,a11,a12,a13,a14⟩ := ha
-  obtain ⟨h1,h2⟩ := h
+  obtain ⟨h1,h2,h3⟩ := h
+  have mh := merged_held
   step_split hs
   all_goals invd_auto
 
 theorem invD_unsubCall (s s' : St) (c : Nat) (ha : InvA s) (h : InvD s) (hs : step s (.unsubCall c) = some s') : InvD s' := by
   obtain ⟨a1,a2,a3,a4,a5,a6,a7,a8,a9,a10,a11,a12,a13,a14⟩ := ha
-  obtain ⟨h1,h2⟩ := h
+  obtain ⟨h1,h2,h3⟩ := h
+  have mh := merged_held
   step_split hs
   all_goals invd_auto
 
 theorem invD_rmInbox (s s' : St) (c : Nat) (ha : InvA s) (h : InvD s) (hs : step s (.rmInbox c) = some s') : InvD s' := by
   obtain ⟨a1,a2,a3,a4,a5,a6,a7,a8,a9,a10,a11,a12,a13,a14⟩ := ha
-  obtain ⟨h1,h2⟩ := h
+  obtain ⟨h1,h2,h3⟩ := h
+  have mh := merged_held
   step_split hs
   all_goals invd_auto
 
 theorem invD_rmToken (s s' : St) (c : Nat) (ha : InvA s) (h : InvD s) (hs : step s (.rmToken c) = some s') : InvD s' := by
   obtain ⟨a1,a2,a3,a4,a5,a6,a7,a8,a9,a10,a11,a12,a13,a14⟩ := ha
-  obtain ⟨h1,h2⟩ := h
+  obtain ⟨h1,h2,h3⟩ := h
+  have mh := merged_held
   step_split hs
   all_goals invd_auto
 
 theorem invD_rmDelete (s s' : St) (c : Nat) (ha : InvA s) (h : InvD s) (hs : step s (.rmDelete c) = some s') : InvD s' := by
   obtain ⟨a1,a2,a3,a4,a5,a6,a7,a8,a9,a10,a11,a12,a13,a14⟩ := ha
-  obtain ⟨h1,h2⟩ := h
+  obtain ⟨h1,h2,h3⟩ := h
+  have mh := merged_held
   step_split hs
   all_goals invd_auto
 
 theorem invD_rmRelease (s s' : St) (c : Nat) (ha : InvA s) (h : InvD s) (hs : step s (.rmRelease c) = some s') : InvD s' := by
   obtain ⟨a1,a2,a3,a4,a5,a6,a7,a8,a9,a10,a11,a12,a13,a14⟩ := ha
-  obtain ⟨h1,h2⟩ := h
+  obtain ⟨h1,h2,h3⟩ := h
+  have mh := merged_held
   step_split hs
   all_goals invd_auto
 
 theorem invD_recvBegin (s s' : St) (c : Nat) (ha : InvA s) (h : InvD s) (hs : step s (.recvBegin c) = some s') : InvD s' := by
   obtain ⟨a1,a2,a3,a4,a5,a6,a7,a8,a9,a10,a11,a12,a13,a14⟩ := ha
-  obtain ⟨h1,h2⟩ := h
+  obtain ⟨h1,h2,h3⟩ := h
+  have mh := merged_held
   step_split hs
   all_goals invd_auto
 
 theorem invD_recvTake (s s' : St) (c : Nat) (ha : InvA s) (h : InvD s) (hs : step s (.recvTake c) = some s') : InvD s' := by
   obtain ⟨a1,a2,a3,a4,a5,a6,a7,a8,a9,a10,a11,a12,a13,a14⟩ := ha
-  obtain ⟨h1,h2⟩ := h
+  obtain ⟨h1,h2,h3⟩ := h
+  have mh := merged_held
   step_split hs
   all_goals invd_auto
 
